@@ -45,6 +45,9 @@ CONCRETE = {
     "three quic: empty, one-byte and two-byte cids": [QC((1, 40000), (2, 443), "0701070707070707", "", "09"), QC((1, 40001), (2, 443), "0702070707070707", "09", ""),
                                                       QC((4, 40000), (2, 443), "0703070707070707", "0909", "0909")],
     "quic whose new cid extends its old cid (prefix within one side)": [QC((1, 40000), (2, 443), "0701070707070707", "0101", "0505", ncid="extend"), QC((1, 40001), (2, 443), "0702070707070707", "02", "05")],
+    "late quic (handshake before the capture start) next to quic with empty cids": [
+        QC((1, 40000), (2, 443), "0701070707070707", "", "0505"), dict(QC((3, 40001), (2, 443), "0702070707070707", "04", "0606"), late=True),
+        QC((1, 40002), (2, 443), "0703070707070707", "", "")],
     # session resumption: the second and third connection reuse the first one's master secret (abbreviated handshakes, fresh randoms)
     "tls session resumed twice": [dict(T((1, 40000), (2, 443)), resumable=True), T((1, 40001), (2, 443), resume_of=0), T((1, 40002), (2, 443), resume_of=0)],
     # beyond the model's sets: more connections, mixed IP versions
@@ -60,6 +63,23 @@ def ep(host, port, ipv, server):
     else:
         ip = bytes.fromhex("20010db8000000000000000000000000")[:15] + bytes([host])
     return Endpoint(bytes([2, 0x5E if server else 0xC1, 0, 0, ipv, host]), ip, port)
+
+
+def std_quic_beh(suite, ncid=False):
+    """a plain Quic.tla behaviour (handshake, four stream datagrams) in the Emit format"""
+    return dict(suite=suite, first="same", split=[1], twoPkts=False, retry=False, zrtt=False, coalesce=True,
+                cfApp=False,
+                hist=[dict(d="c", pkts=[dict(t="I", d="c", gen=0, frames=[dict(ft="crypto", a="CH", b=1)])]),
+                      dict(d="s", pkts=[dict(t="I", d="s", gen=0, frames=[dict(ft="other", a="ack", b=0), dict(ft="crypto", a="SH", b=1)]),
+                                        dict(t="H", d="s", gen=0, frames=[dict(ft="crypto", a="SF", b=1)])]),
+                      dict(d="c", pkts=[dict(t="I", d="c", gen=0, frames=[dict(ft="other", a="ack", b=0)]),
+                                        dict(t="H", d="c", gen=0, frames=[dict(ft="crypto", a="CF", b=1)]),
+                                        dict(t="A", d="c", gen=0, frames=[dict(ft="stream", a=1, b=0)])]),
+                      dict(d="s", pkts=[dict(t="A", d="s", gen=0, frames=[dict(ft="other", a="done", b=0)] + ([dict(ft="other", a="ncid", b=0)] if ncid else []) +
+                                             [dict(ft="stream", a=2, b=0)])]),
+                      dict(d="c", pkts=[dict(t="A", d="c", gen=0, frames=[dict(ft="stream", a=3, b=0), dict(ft="other", a="ack", b=0)])]),
+                      dict(d="s", pkts=[dict(t="A", d="s", gen=0, frames=[dict(ft="other", a="ack", b=0), dict(ft="stream", a=4, b=0)])])],
+                out=[], kf=False)
 
 
 def build_one(cd, idx, seed):
@@ -80,22 +100,11 @@ def build_one(cd, idx, seed):
         c = TlsConn(ver, suites()[suite], seed=seed, **shape)
         for d, n in [("c", 40 + idx), ("s", 300 + idx), ("c", 10), ("s", 1000 + idx)]:
             c.app(d, n)
-        cap = tcp_capture([c], [fl], isns=[(1000 + 97 * idx + seed % 1000, 7000 + 31 * idx)])
+        # (every third build: records span several segments, so that a cut or a loss leaves a partial record buffered)
+        cap = tcp_capture([c], [fl], isns=[(1000 + 97 * idx + seed % 1000, 7000 + 31 * idx)], mss=[None, None, 120][seed % 3])
         frames = [fr for _ts, fr in cap.pkts]
         return dict(proto="tls", flow=fl, frames=frames, keylog=c.keylog, truth={"c": c.truth("c"), "s": c.truth("s")})
-    b = dict(suite=rng.choice(["1301", "1302", "1303", "1304"]), first="same", split=[1], twoPkts=False, retry=False, zrtt=False, coalesce=True,
-             cfApp=False,
-             hist=[dict(d="c", pkts=[dict(t="I", d="c", gen=0, frames=[dict(ft="crypto", a="CH", b=1)])]),
-                   dict(d="s", pkts=[dict(t="I", d="s", gen=0, frames=[dict(ft="other", a="ack", b=0), dict(ft="crypto", a="SH", b=1)]),
-                                     dict(t="H", d="s", gen=0, frames=[dict(ft="crypto", a="SF", b=1)])]),
-                   dict(d="c", pkts=[dict(t="I", d="c", gen=0, frames=[dict(ft="other", a="ack", b=0)]),
-                                     dict(t="H", d="c", gen=0, frames=[dict(ft="crypto", a="CF", b=1)]),
-                                     dict(t="A", d="c", gen=0, frames=[dict(ft="stream", a=1, b=0)])]),
-                   dict(d="s", pkts=[dict(t="A", d="s", gen=0, frames=[dict(ft="other", a="done", b=0)] + ([dict(ft="other", a="ncid", b=0)] if cd["ncid"] else []) +
-                                          [dict(ft="stream", a=2, b=0)])]),
-                   dict(d="c", pkts=[dict(t="A", d="c", gen=0, frames=[dict(ft="stream", a=3, b=0), dict(ft="other", a="ack", b=0)])]),
-                   dict(d="s", pkts=[dict(t="A", d="s", gen=0, frames=[dict(ft="other", a="ack", b=0), dict(ft="stream", a=4, b=0)])])],
-             out=[], kf=False)
+    b = std_quic_beh(rng.choice(["1301", "1302", "1303", "1304"]), cd["ncid"])
     params = dict(odcid=cd["odcid"], cid_c=cd["ccid"], cid_s=cd["scid"], cid_switch=bool(cd["ncid"]), ncid_extend=(cd["ncid"] == "extend"),
                   pnlen={"c": rng.choice([1, 2]), "s": rng.choice([1, 2, 4])})
     if cd["ncid"]:
@@ -147,8 +156,19 @@ def _one(job):
         import traceback
         return dict(machinery=traceback.format_exc()[-1500:])
     steps = [4 if c["proto"] == "tls" else 6 for c in conns]
+    for i, cd in enumerate(CONCRETE[name]):
+        if cd.get("late"):              # Demux.tla Late: the three handshake datagrams lie before the capture start
+            conns[i]["frames"], conns[i]["partial"], steps[i] = conns[i]["frames"][3:], True, 3
     if packetwise:                      # a seeded order-preserving merge at single-packet granularity
         rng = random.Random(seed)
+        if seed % 3 == 0:               # one connection of the set is incomplete: the capture stops inside it, or one of its packets was lost.
+            v = conns[rng.randrange(len(conns))]      # "as if it were alone" then means: the same partial export as alone -- and the others untouched
+            fr = list(v["frames"])
+            if seed % 2 and len(fr) > 6:
+                del fr[rng.randrange(3, len(fr) - 1)]
+            else:
+                fr = fr[:len(fr) - rng.randint(1, min(6, max(1, len(fr) - 3)))]
+            v["frames"], v["partial"] = fr, True
         steps = [len(c["frames"]) for c in conns]
         pool = [i + 1 for i, c in enumerate(conns) for _ in c["frames"]]
         rng.shuffle(pool)
@@ -169,7 +189,9 @@ def _one(job):
         ps, _ = project(solo.out, c) if solo.out else (None, [])
         pm, probs = project(res.out, c)
         truth_ok = True
-        if c["proto"] == "tls":
+        if c.get("partial"):
+            pass                        # an incomplete connection is judged against its solo export only (what it may export is C03 / C08's subject)
+        elif c["proto"] == "tls":
             truth_ok = pm is not None and (pm[0], pm[1]) == (c["truth"]["c"], c["truth"]["s"])
         else:
             truth_ok = pm == c["truth"]
